@@ -40,6 +40,13 @@ def gen_cases(tier, seed, ctx):
             for seq in itertools.product(idx, repeat=L):
                 if rnd.random() < (0.3 if tier == 'quick' else 1.0):
                     add(['%d%s' % (k, rnd.choice(['', 'c'])) for k in seq], 'mixed-seq%d' % L)
+        # requests with a buffer smaller than the chunk (the prefix is returned), then further requests on the same context
+        for L in (2, 3):
+            for seq in itertools.product(idx, repeat=L):
+                if rnd.random() < (0.3 if tier == 'quick' else 1.0):
+                    toks = ['%d%s' % (k, rnd.choice(['', 'c', 'h'])) for k in seq]
+                    toks[0] = '%dh' % seq[0]
+                    add(toks, 'short-buffer-seq%d' % L)
         for _ in range(10 if tier == 'quick' else 60):
             L = rnd.randrange(4, 40)
             add(['%d%s' % (rnd.choice(idx), rnd.choice(['', '', 'c'])) for _ in range(L)], 'long-random')
@@ -51,6 +58,6 @@ def nontrivial(r):
 def run(tier, seed, replay=None):
     rule = ("CHUNKSEQ on valid files (none/zstd x dictionary x uncompressed-source flag, duplicate chunks, 1-byte chunks): ALL request "
             "sequences of length <= 3 over all chunk numbers incl. the dictionary entry and the last chunk (exhaustive), mixed data / "
-            "stored-data sequences, random sequences of 4..40 requests; each request's (return value, bytes) is compared with the reference "
+            "stored-data sequences, sequences starting with a request into a buffer of half the chunk's size, random sequences of 4..40 requests; each request's (return value, bytes) is compared with the reference "
             "decoder's slice; distinct by (file, sequence)")
     return E.standard_run(PROP, MODULES, gen_cases, tier, seed, replay, ASSUMPTIONS, rule, nontrivial=nontrivial, timeout_s=60)
